@@ -58,13 +58,16 @@ impl Session {
                             Ok(future) => future.await,
                             Err(panic) => panicking(panic),
                         };
-                        let upgrade = res.send(&mut self.connection).await;
+                        let Ok(upgrade) = res.send(&mut self.connection).await else {
+                            // the peer went away before its response was written
+                            break Upgrade::None
+                        };
 
                         if !upgrade.is_none() {break upgrade}
                         if close {break Upgrade::None}
                     }
                     Ok(None) => break Upgrade::None,
-                    Err(res) => {res.send(&mut self.connection).await;},
+                    Err(res) => if res.send(&mut self.connection).await.is_err() {break Upgrade::None},
                 }
             }
         }).await {
